@@ -41,6 +41,7 @@ func init() {
 			{ID: "R10r", Floor: 6, Doc: "the index of a wrap lists every section: nothing is dropped between sorting and compaction (= R11b)", Run: ruleR11b},
 			{ID: "R10s", Floor: 1, Doc: "a wrap is indexed under the options the caller gave: WrapV1 forwards its options to index generation (= R03l)", Run: ruleR07c},
 			{ID: "R10t", Floor: 2, Doc: "the index of a wrap holds every hash function's records: load loops store a fresh object, built around fresh maps, per iteration (= R11i)", Run: ruleR11i},
+			{ID: "R10u", Floor: 1, Doc: "the index a wrap writes behind the payload is made of buckets that are exactly width x len bytes (= R03x): a bucket cut from a shared buffer without an upper bound is serialized with the buckets behind it", Run: ruleR03x},
 		},
 	})
 }
